@@ -254,6 +254,8 @@ def shard(sh):
         if sh["kind"] == "enum":
             cases = enum_cases()[sh["sub"]::sh["of"]]
             for c in cases:
+                if run.enough():
+                    break
                 for kind in e2.KINDS:
                     for version in ("1.1", "1.0"):
                         case = dict(c, kind=kind, version=version)
@@ -266,6 +268,8 @@ def shard(sh):
         else:
             rng = rng_for(sh["seed"], "c09", sh["sub"])
             for k in range(sh["n"]):
+                if run.enough():
+                    break
                 case = random_case(rng)
                 case["kind"] = rng.choice(e2.KINDS)
                 case["version"] = rng.choice(["1.1", "1.0"])
